@@ -221,6 +221,7 @@ PURE_SUFFIXES = (
 )
 
 IDENTITY_CALLS = (
+    "std::vec::Vec::<T, A>::as_slice", "std::vec::Vec::<T, A>::as_mut_slice", "std::string::String::as_str", "std::string::String::as_mut_str",
     "std::clone::Clone::clone", "<ast::", "std::borrow::ToOwned::to_owned",
     "std::str::<impl std::borrow::ToOwned for str>::to_owned",
     "std::string::ToString::to_string", "<str as std::string::ToString>::to_string",
@@ -929,6 +930,31 @@ class Machine(object):
             a = deref_val(args[0])
             if isinstance(a, VecVal):
                 return finish(a)
+        if (d == "std::iter::Extend::extend" or name.endswith("as std::iter::Extend<T>>::extend")) and len(args) == 2 and "HashSet" in name \
+                and any(str(x).startswith("std::option::Option<") for x in ((callee_info(t) or {}).get("args") or [])[-1:]):
+            # set.extend(option): insert the payload when there is one (reported like the insert it stands for)
+            tgt = args[0]
+            ov = deref_val(args[1])
+            ins = "std::collections::HashSet::<T, S, A>::insert"
+            if isinstance(ov, AdtVal) and ov.variant == 0:
+                return finish(Const("unit", None))
+            if isinstance(ov, AdtVal) and ov.variant == 1:
+                pay = self.field_cell(ov, 0, None, None).val
+                st.effects.append(("call", ins, (lab(deref_val(tgt)), lab(pay)), loc(t)))
+                self.bump(tgt)
+                return finish(Const("unit", None))
+            if isinstance(ov, Opaque):
+                s2 = copy.deepcopy(st)
+                d2 = self.find_copied_cell(st, s2, dest)
+                d2.val = Const("unit", None)
+                s2.conds.append((("variant", ov.label), "None"))
+                s2.frames[-1].bb = target
+                st.conds.append((("variant", ov.label), "Some"))
+                st.effects.append(("call", ins, (lab(deref_val(tgt)), join_label(ov.label, "Some.0")), loc(t)))
+                self.bump(tgt)
+                dest.val = Const("unit", None)
+                fr.bb = target
+                return [s2]
         if (d == "std::iter::Extend::extend" or name.endswith("as std::iter::Extend<T>>::extend")) and len(args) == 2 and "Vec" in name \
                 and any(str(x).startswith("std::option::Option<") for x in ((callee_info(t) or {}).get("args") or [])[-1:]):
             # vec.extend(option): push the payload when there is one
@@ -1086,6 +1112,19 @@ class Machine(object):
                 return finish(AdtVal("std::option::Option", 1, {0: Cell(copy_val(deref_val(self.field_cell(ov, 0, None, None).val)))}, None, "Some"))
             if isinstance(ov, Opaque):
                 return finish(Opaque(ov.label, t["dest"]["ty"]))
+        if d == "std::option::Option::<T>::get_or_insert":
+            # *opt = Some(v) when empty; the payload (by reference) either way
+            tgt = args[0]
+            if isinstance(tgt, Ref):
+                ov = tgt.cell.val
+                if isinstance(ov, AdtVal) and ov.variant == 0:
+                    nv = AdtVal("std::option::Option", 1, {0: Cell(args[1])}, None, "Some")
+                    if tgt.cell.name is not None:
+                        st.effects.append(("assign", tgt.cell.name, lab(nv), loc(t)))
+                    tgt.cell.val = nv
+                    return finish(Ref(nv.fields[0], True))
+                if isinstance(ov, AdtVal) and ov.variant == 1:
+                    return finish(Ref(self.field_cell(ov, 0, None, None), True))
         if d == "std::option::Option::<T>::unwrap_or":
             ov = deref_val(args[0])
             if isinstance(ov, AdtVal) and ov.variant == 0:
@@ -1104,7 +1143,7 @@ class Machine(object):
                 dest.val = Opaque(join_label(ov.label, "Some.0"))
                 fr.bb = target
                 return [s2]
-        if d in ("std::option::Option::<T>::map", "std::option::Option::<T>::and_then"):
+        if d in ("std::option::Option::<T>::map", "std::option::Option::<T>::and_then", "std::option::Option::<T>::filter"):
             ov = deref_val(args[0])
             mode = "option_" + d.rsplit("::", 1)[1]
             if isinstance(ov, Opaque):
@@ -1119,8 +1158,10 @@ class Machine(object):
                 fr.bb = target
                 nf = Frame(("<native>", mode), 0)
                 nf.locals = [Cell(payload), dest, Cell(args[1])]
-                nf.data = {"kinds": ["sink"], "idx": 0, "target": target, "mode": mode, "loc": loc(t), "src": ov.label, "quiet": True}
+                nf.data = {"kinds": ["sink"], "idx": 0, "target": target, "mode": mode, "loc": loc(t), "src": ov.label, "quiet": True, "payload": payload}
                 st.frames.append(nf)
+                if mode == "option_filter":
+                    nf.locals[0] = Cell(Ref(Cell(payload)))
                 self.native_advance(st, nf)
                 return [s2]
             if isinstance(ov, AdtVal) and ov.variant == 0:
@@ -1128,9 +1169,12 @@ class Machine(object):
             if isinstance(ov, AdtVal) and ov.variant == 1:
                 fr.bb = target
                 nf = Frame(("<native>", mode), 0)
-                nf.locals = [Cell(self.field_cell(ov, 0, None, None).val), dest, Cell(args[1])]
-                nf.data = {"kinds": ["sink"], "idx": 0, "target": target, "mode": mode, "loc": loc(t), "src": lab(ov), "quiet": True}
+                pay_ = self.field_cell(ov, 0, None, None).val
+                nf.locals = [Cell(pay_), dest, Cell(args[1])]
+                nf.data = {"kinds": ["sink"], "idx": 0, "target": target, "mode": mode, "loc": loc(t), "src": lab(ov), "quiet": True, "payload": pay_}
                 st.frames.append(nf)
+                if mode == "option_filter":
+                    nf.locals[0] = Cell(Ref(Cell(pay_)))
                 return self.native_advance(st, nf)
         if d in ADAPTORS:
             kind = ADAPTORS[d]
@@ -1314,6 +1358,20 @@ class Machine(object):
                 return self.native_finish(st, nf, Const("unit", None))
             if d["mode"] == "option_map":
                 return self.native_finish(st, nf, AdtVal("std::option::Option", 1, {0: Cell(ret)}, None, "Some"))
+            if d["mode"] == "option_filter":
+                rv = deref_val(ret)
+                some = AdtVal("std::option::Option", 1, {0: Cell(d["payload"])}, None, "Some")
+                none = AdtVal("std::option::Option", 0, {}, None, "None")
+                if isinstance(rv, Const) and rv.kind == "bool":
+                    return self.native_finish(st, nf, some if rv.v else none)
+                # undecided predicate: fork like an `if`
+                s2 = copy.deepcopy(st)
+                n2 = s2.frames[-1]
+                s2.conds.append((lab(rv), False))
+                self.native_finish(s2, n2, AdtVal("std::option::Option", 0, {}, None, "None"))
+                st.conds.append((lab(rv), True))
+                self.native_finish(st, nf, some)
+                return [s2]
             return self.native_finish(st, nf, ret)
         if kind == "map":
             nf.locals[0].val = ret
